@@ -82,14 +82,21 @@ Theorem C19_positional_is_single_call :
   forall calls s, rd (run qwrite_all calls s) = rd (run write_all [concat calls] s).
 Proof. exact positional_is_single_call. Qed.
 
-(* IncrementalDocument::save_to: the previous bytes are written around the counter and counted
-   afterwards; observably this is the same pipeline with the previous bytes as first call, so
-   (1)-(5) hold for incremental saves with calls := prev :: calls. *)
+(* IncrementalDocument::save_to: the previous bytes are written around the counter, counted
+   afterwards and from the file header.  Observably this is the same pipeline with the previous
+   bytes as first call, so (1)-(5) hold for incremental saves with calls := prev :: calls; and on
+   Ok the counter is the number of bytes delivered minus the bytes before the first "%PDF-":
+   recorded offsets are true positions relative to the file header, whatever the sink did. *)
 Theorem C19_incremental_is_plain :
   forall wa prev calls s,
     rd (run_inc wa prev calls s) = rd (run wa (prev :: calls) s) /\
-    (fst (fst (run_inc wa prev calls s)) = WOk -> run_inc wa prev calls s = run wa (prev :: calls) s).
+    (forall d n, run_inc wa prev calls s = (WOk, d, n) ->
+       run wa (prev :: calls) s = (WOk, d, n + N.of_nat (header_offset prev))).
 Proof. exact run_inc_is_run. Qed.
+
+Theorem C19_example_header_offset :
+  header_offset (bs "junk" ++ [x0a] ++ bs "%PDF-1.5 %PDF-") = 5%nat /\ header_offset (bs "%PD") = 0%nat.
+Proof. split; reflexivity. Qed.
 
 (* (6) "a later save of the same document ...": what a failed save leaves behind.  The save path
    mutates the document at one point (after [pre], before [post]); a failed save leaves the document
@@ -190,6 +197,7 @@ Print Assumptions C19_failure_at_position.
 Print Assumptions C19_positional_rechunking.
 Print Assumptions C19_positional_is_single_call.
 Print Assumptions C19_incremental_is_plain.
+Print Assumptions C19_example_header_offset.
 Print Assumptions C19_failed_save_residue.
 Print Assumptions C19_sinks_sound.
 Print Assumptions C19_resave_table.
